@@ -169,3 +169,92 @@ func VerifC12Pool() {
 	verifAssert(srv.OpenConns() == 0, "pool-closed")
 	verifObserveU64("dials", uint64(srv.Dials()))
 }
+
+// VerifC11History: every history of up to N operations over {acquire, release any handle ever
+// handed out (held or not), ping through a held handle, idle health check, the client of a held
+// handle dies and is released} on a pool of 1..2 connections, with a model of who holds what:
+// after every step the pool's count of acquired resources equals the model's, a connection has at
+// most one holder, a release of a handle that holds nothing changes nothing, dead connections are
+// closed and never handed out again, and at most MaxConns connections are open.
+func VerifC11History() {
+	srv := ch.VerifNewServer()
+	maxConns := int32(verifIntRange("maxconns", 1, 2))
+	p := vPool(srv, maxConns, time.Hour, time.Hour)
+	ctx := context.Background()
+	var handles []*Client
+	var holds []int // connection index held by handles[i], -1 once released
+	dead := map[int]bool{}
+	held := func() int {
+		n := 0
+		for _, h := range holds {
+			if h >= 0 {
+				n++
+			}
+		}
+		return n
+	}
+	steps := verifIntRange("steps", 1, verifParam("maxsteps", 3))
+	for s := 0; s < steps; s++ {
+		switch verifChoice("op", 5) {
+		case 0: // acquire
+			actx, cancel := context.WithCancel(ctx)
+			exhausted := held() >= int(maxConns)
+			if exhausted {
+				cancel() // it could only wait for a release that this history does not contain
+			}
+			c, err := p.Acquire(actx)
+			cancel()
+			if exhausted {
+				verifAssert(err != nil, "acquire-beyond-maxconns-fails")
+				break
+			}
+			verifAssert(err == nil && c != nil, "acquire-ok")
+			if err != nil {
+				return
+			}
+			idx := srv.VerifConnIndex(c.client())
+			for _, h := range holds {
+				verifAssert(h != idx, "one-holder-per-connection")
+			}
+			verifAssert(!dead[idx], "dead-connection-not-reissued")
+			handles, holds = append(handles, c), append(holds, idx)
+		case 1: // release any handle, held or not
+			if len(handles) == 0 {
+				break
+			}
+			j := verifIntRange("handle", 0, len(handles)-1)
+			handles[j].Release()
+			holds[j] = -1
+		case 2: // use a held handle
+			for j, h := range holds {
+				if h >= 0 {
+					verifAssert(handles[j].Ping(ctx) == nil, "ping-through-held-handle")
+					break
+				}
+			}
+		case 3:
+			p.checkIdleConnsHealth()
+		case 4: // the client behind a held handle dies; the holder releases it
+			for j, h := range holds {
+				if h >= 0 {
+					_ = handles[j].client().Close()
+					handles[j].Release()
+					verifSettle()
+					verifAssert(srv.Closed(h), "dead-connection-closed")
+					dead[h] = true
+					holds[j] = -1
+					break
+				}
+			}
+		}
+		verifAssert(int(p.Stat().AcquiredResources()) == held(), "acquired==model")
+		verifAssert(srv.OpenConns() <= int(maxConns), "open<=maxconns")
+	}
+	for j := range handles {
+		handles[j].Release()
+	}
+	verifAssert(p.Stat().AcquiredResources() == 0, "all-released-at-end")
+	p.Close()
+	verifAssert(srv.OpenConns() == 0, "closed-after-pool-close")
+	verifObserveU64("dials", uint64(srv.Dials()))
+}
